@@ -211,8 +211,8 @@ def first_diff(env, tag, i, j):
             if x != y:
                 tx, ty = x.split(), y.split()
                 col = next((k for k, (u, v) in enumerate(zip(tx, ty)) if u != v), -1)
-                return "%s line %d col %d: %s | %s" % (os.path.basename(fa), n + 1, col, " ".join(tx[max(col, 0):col + 2])[:60],
-                                                      " ".join(ty[max(col, 0):col + 2])[:60])
+                return "%s line %d (first column %s) col %d: %s | %s" % (os.path.basename(fa), n + 1, (tx[:1] or [""])[0], col,
+                                                                         " ".join(tx[max(col, 0):col + 2])[:60], " ".join(ty[max(col, 0):col + 2])[:60])
         if len(la) != len(lb):
             return "%s: %d vs %d lines" % (os.path.basename(fa), len(la), len(lb))
     return ""
